@@ -193,6 +193,26 @@ PROPS = {
         "technique": "property-based testing (rapid): adversarial origin generator, independent-parser oracle (safety + liveness)",
         "legs": [leg("^TestC13$", 6000, 100000, qshards=8)],
     },
+    "C14": {
+        "title": "Client handshake: connect iff the reply proves the server accepted this request",
+        "level": "exploration",
+        "rule": "URLs (scheme ws/wss/WS/http/https/empty/other, optional userinfo, host names/IPv4/IPv6 literals with and without port, paths with reserved and percent-escaped characters, queries), Dialer settings (Subprotocols, EnableCompression) and caller header maps (benign names incl. Host override and cookies, and each protocol-owned name) are generated; every case dials twice on one Dialer against a scripted server: first a plain valid reply, then a reply built from the observed request in three modes (valid with variations of header-name case, token case, extra tokens, OWS, several lines / exactly one defect / free mix): status of every class, missing or near-miss Upgrade/Connection tokens, Accept absent / truncated / prefix / for another key / STALE from the first dial / trailing junk / case-changed / empty, bodies of 0..5000 bytes length-delimited or chunked. Oracle: a Conn is returned iff status 101 and Upgrade has token websocket and Connection has token upgrade and Accept equals the independent digest of the key sent in THIS request; otherwise ErrBadHandshake with the reply's status, headers and the first min(1024,n) body bytes; the captured request is accepted by a strict parser: GET, request-target == path?query of the URL, HTTP/1.1, Host = URL host or override, exactly one Upgrade/Connection/Version/Key, key canonical base64 of 16 bytes and never repeated in the run, subprotocols as configured, permessage-deflate offered iff enabled, caller headers present; protocol-owned caller headers, non-ws(s) schemes and userinfo are refused with zero calls of the dial hook. Non-trivial = reply differing from a valid one in exactly one element; URLs with query/escapes/IPv6.",
+        "assumptions": TRUST + ["a reply whose Connection header carries the token close is unspecified (net/http deletes that header before the library sees it)"],
+        "level_text": "Bounded random exploration of replies, URLs, settings and header maps with an independent digest and a strict request parser.",
+        "level_note": "The scripted server computes replies from the bytes the client actually wrote.",
+        "technique": "property-based testing (rapid): scripted-server reply generator, iff-classifier oracle, strict request parser",
+        "legs": [leg("^TestC14$", 3000, 30000, qshards=8)],
+    },
+    "C15": {
+        "title": "Both endpoints always agree on whether compression is in use",
+        "level": "exploration",
+        "rule": "three legs. pair: a real Dialer and a real Upgrader are connected through scripted transports (the Upgrader runs on the request bytes the Dialer wrote; the client reads the 101 bytes the server wrote) for all 4 EnableCompression combinations; 1-6 messages of generated sizes flow in both directions with EnableWriteCompression / SetCompressionLevel(-2..9) changes on the sender before a message and receivers that sometimes read only a prefix. server: Upgrader against a scripted client with 18 extension offers (absent, parameters, quoted strings, other extensions first, several lines, near-miss names, malformed). client: Dialer against a scripted 101 with 16 announcement variants (none, each no_context_takeover parameter missing, extra parameters, other extensions, near-miss names). Observable 'compresses' = RSV1 on a data frame (independent decoder + RFC 7692 inflate); 'accepts' = a scripted RSV1 message (independent deflater) is decoded rather than failing the connection. Oracle: every message is received intact by the other side under every toggle history; RSV1 appears only if the 101 announced permessage-deflate with both parameters, which happens only if both sides enabled it (server: iff enabled and cleanly offered); an announcement lacking a parameter makes Dial fail; scripted RSV1 messages are accepted iff negotiated, uncompressed ones always. Non-trivial = off-diagonal settings, offers/announcements given, or >=1 toggle; the fraction of cases with RSV1 observed is reported.",
+        "assumptions": TRUST + ["an unsolicited announcement to a client that did not offer, and malformed offers, are unspecified"],
+        "level_text": "Bounded random exploration of the configuration matrix, offer/announcement grammars and toggle histories with an independent codec as observer.",
+        "level_note": "Compression is observed on the wire, not through library state.",
+        "technique": "property-based testing (rapid): real Dialer/Upgrader pairs plus scripted peers, independent-codec oracle",
+        "legs": [leg("^TestC15$", 2500, 25000, qshards=8)],
+    },
 }
 
 NOT_APPLICABLE = [
